@@ -195,3 +195,18 @@ Definition sim_ok (o : observed) : bool :=
    (after zero-extension): a virtual register an instruction reads or writes is one of its operands *)
 Definition discipline_ok (o : observed) : bool :=
   if reached_alloc o then virt_in_operands_b (instructions (o_after_zext o)) else true.
+
+(* the real pass.Compile (whatever order pass/pass.go lists the passes in) run end to end on the same
+   program: error code, allocation, final nodes.  Its allocation must be valid for the program the
+   passes are meant to compile (the staged run's instructions after zero-extension, with their
+   successors), and its result must be the staged result. *)
+Definition e2e_t := (N * list (N * N) * list node)%type.
+Definition e2e_alloc_ok (ce : pcase * e2e_t) : bool :=
+  let o := snd (fst ce) in let '(err, al, ns) := snd ce in
+  if (err =? 0) && reached_alloc o then match prog_regs_of o with Some pr => allocation_valid al pr | None => true end else true.
+Definition pairN_eqb (a b : N * N) : bool := (fst a =? fst b) && (snd a =? snd b).
+Definition e2e_same (ce : pcase * e2e_t) : bool :=
+  let o := snd (fst ce) in let '(err, al, ns) := snd ce in
+  (err =? o_err o) && (if err =? 0 then nodes_eqb ns (o_nodes o) && list_eqb pairN_eqb al (o_alloc o) else true).
+Definition where_not2 (f : pcase * e2e_t -> bool) (cs : list pcase) (es : list e2e_t) : list N :=
+  idx_where (fun c => negb (f c)) (List.combine cs es).
